@@ -171,6 +171,12 @@ pub fn so3_quats(thorough: bool) -> Vec<[f64; 4]> {
         }
         v.push(z_with_dot(0.99949999));
         v.push(z_with_dot(0.99950001));
+        // a grid of axes x angles (tiny, either side of the 0.9995 switch, right angles, next to and at the half turn)
+        for ax in [x, y, z, [1.0, 1.0, 0.0], [1.0, 0.0, -1.0], [0.0, 1.0, 1.0], d, [0.3, -0.7, 0.2]] {
+            for a in [0.001, 0.1, 3.6, 3.63, 45.0, 135.0, 179.99, 180.0] {
+                v.push(quat_axis_angle(ax, a));
+            }
+        }
     }
     v
 }
